@@ -221,7 +221,7 @@ pub fn run(s: &Scn, st: &mut Stats, check_structure: bool) -> Verdict {
             if ops::expected_admissible(case) {
                 return Verdict::Violation(Viol::new(
                     "Incomplete",
-                    format!("Incomplete:{}", case.op),
+                    format!("Incomplete:{}{}", case.op, ops::input_class(case)),
                     format!("{}: admissible inputs, yet not satisfiable with the honest witness: {v:?}", desc()),
                 ));
             }
